@@ -125,6 +125,12 @@ func (in Input) Bytes() []byte {
 
 func (in Input) base() []byte {
 	n, p, v := in.N, in.P, in.V
+	if v < 0 {
+		v = -v
+	}
+	if n < 0 {
+		n = 0
+	}
 	r := core.NewRand(in.Seed ^ 0x5eed)
 	switch in.Fam {
 	case "empty":
@@ -304,7 +310,7 @@ func (in Input) base() []byte {
 	case "gzip":
 		return append([]byte("\x1f\x8b\x08\x00\x00\x00\x00\x00\x00\x03"), textN(clamp(n, 0, 1<<16), in.Seed)...)
 	case "random":
-		b := make([]byte, clamp(n, 1, 1<<22))
+		b := make([]byte, clamp(n, 2, 1<<22))
 		r.Bytes(b)
 		b[0] = 0x01 // keep it binary and free of known magic numbers
 		b[1] = 0x02
@@ -314,7 +320,7 @@ func (in Input) base() []byte {
 		bodies := []string{"<html><head><meta charset=\"iso-8859-5\"></head><body>x</body></html>", "<?xml version=\"1.0\"?><a/>", "plain text after a mark",
 			"<!doctype html><title>t</title>", "{\"a\":1}", "<HTML><BODY>upper</BODY></HTML>", "<div>fragment</div>", "<script>var x</script>"}
 		ws := []string{"", " ", "\n\t ", "\r\n"}
-		return []byte("\xef\xbb\xbf" + ws[p%len(ws)] + bodies[v%len(bodies)] + string(textN(clamp(n, 0, 1<<14), in.Seed)))
+		return []byte("\xef\xbb\xbf" + ws[clamp(p, 0, 1<<30)%len(ws)] + bodies[v%len(bodies)] + string(textN(clamp(n, 0, 1<<14), in.Seed)))
 	case "shebang":
 		ls := []string{"#!/usr/bin/env python\nprint('x')\n", "#!/usr/bin/perl\nprint 1;\n", "#!/usr/bin/lua\nprint(1)\n", "#!/usr/bin/env node\nconsole.log(1)\n"}
 		return append([]byte(ls[v%len(ls)]), textN(clamp(n, 0, 1<<16), in.Seed)...)
